@@ -382,6 +382,10 @@ def check(prog, run):
 
     check_default_resolver(prog, run)
     check_context_threading(prog, run, "V1")
+    from .. import typedrule
+    typedrule.run_rule(prog, run, "T1", "execution/** and utilities/collect_fields.py",
+                       "operation selection and field collection must hand the executor the node kinds it expects (an AttributeError "
+                       "aborts the request)", ["py_gql.execution", "py_gql.utilities.collect_fields"], 25)
     from .. import valuetruth
     valuetruth.check(prog, run, "N1", ["py_gql.execution", "py_gql.utilities.coerce_value", "py_gql.utilities.value_from_ast"], 20)
 
